@@ -4,6 +4,8 @@ import (
 	"context"
 	"sync"
 	"sync/atomic"
+
+	"github.com/openfga/openfga/internal/verifhook"
 )
 
 // Reporter updates a single entry in a [StatusPool]. Not safe for concurrent use.
@@ -58,6 +60,7 @@ func NewStatusPool() *StatusPool {
 
 // inc atomically increments both the total and in-flight counters.
 func (sp *StatusPool) inc() int64 {
+	verifhook.Point("track.inc")
 	sp.total.Add(1)
 	return sp.inflight.Add(1)
 }
@@ -65,8 +68,10 @@ func (sp *StatusPool) inc() int64 {
 // dec atomically decrements the in-flight counter and closes the
 // quiescence channel when it reaches zero.
 func (sp *StatusPool) dec() int64 {
+	verifhook.Point("track.dec")
 	value := sp.inflight.Add(-1)
 	if value == 0 {
+		verifhook.Point("track.dec.zero")
 		// Swap ensures the channel is closed exactly once even if
 		// multiple goroutines race to decrement to zero.
 		if !sp.zero.Swap(true) {
@@ -91,6 +96,7 @@ func (sp *StatusPool) Register() *Reporter {
 // set marks the source at index as ready. When all sources have been
 // marked ready, the ready channel is closed.
 func (sp *StatusPool) set(index int) {
+	verifhook.Point("track.set")
 	sp.mu.Lock()
 	defer sp.mu.Unlock()
 
@@ -110,6 +116,7 @@ func (sp *StatusPool) set(index int) {
 // count has reached zero. It returns false if ctx is cancelled first.
 func (sp *StatusPool) Wait(ctx context.Context) bool {
 	if len(sp.pool) != 0 {
+		verifhook.Point("track.wait.ready")
 		select {
 		case <-sp.ready:
 		case <-ctx.Done():
@@ -117,7 +124,9 @@ func (sp *StatusPool) Wait(ctx context.Context) bool {
 		}
 	}
 
+	verifhook.Point("track.wait.total")
 	if sp.total.Load() > 0 {
+		verifhook.Point("track.wait.quiescence")
 		select {
 		case <-sp.quiescence:
 		case <-ctx.Done():
